@@ -249,6 +249,21 @@ PLANS = {
                 "distinct (world,text) containing at least one split token that passed",
         "assumptions": COMMON_ASSUMPTIONS + ["words declaring exactly one unit are not judged for the split API (statement speaks of >=2 or none)"],
     },
+    "C12": lambda tier: {
+        "level": "exploration",
+        "stages": [main_stage(60, 300, tier)],
+        "require": ["rows_checked", "system_rows_compared_with_zero_layer_load", "morphemes_checked", "oov_morphemes_checked",
+                    "fifteenth_dictionary_rejected_with_error", "plugin_registered_pos_2"],
+        "rule": "seeded stacks of 0, 1, 2, 3-13, 14 and 15 user dictionaries over a generated system dictionary; each layer compiled the way the "
+                "CLI does (against a plain load of the system dictionary), with POS that exist only in that layer, POS shared between layers "
+                "and with the system, U-prefixed / inline / numeric split and word-structure references; 0-3 POS registered before by OOV "
+                "providers with userPOS=allow (one of them equal to a user-dictionary POS). Checks: every row of every layer read back "
+                "(declared POS strings, references resolved to layer 0 or the own layer and the right row, found by lookup under its own "
+                "dictionary number); every system row compared with a zero-layer load; texts containing each word + plugin-OOV triggers: "
+                "dictionary_id / is_oov / part_of_speech of every morpheme; 15 layers must give an Err (no panic, no acceptance). "
+                "distinct_nontrivial = distinct stacks with >=2 layers (or the 15-layer rejection) that passed",
+        "assumptions": COMMON_ASSUMPTIONS + ["user-dictionary dic_form is '*' (known defect D18 is not part of this property's generator)"],
+    },
 }
 
 
